@@ -15,13 +15,14 @@ RULE = ("2-5 targets x 1-2 commands; per target: base/named/missing argmap files
         "path; --argmaps lists with repeats and missing names, --no-base-argmaps, --args with one command and one target; non-trivial = some child received >=2 arguments from >=2 sources; "
         "distinct by invocation")
 
-ARGS = ["plain", "two words", "", 'q"uote', "it's", "ünï", "a=b", "--looks-like-flag=1", "tab\tx", "{json}", "$HOME", "*", "back\\slash", "日本"]
+ARGS = ["plain", "two words", "", 'q"uote', "it's", "ünï", "a=b", "--looks-like-flag=1", "tab\tx", "{json}", "$HOME", "*", "back\\slash", "日本", "features=a,b", ",", "x,", ";semi;colon", "a:b|c"]
 
 def case(ctx, rng, deps_directed=False):
     """deps_directed: a named target reaches an unnamed dependency through --deps, and that dependency has argument maps of its own"""
     n = rng.randint(2, 5)
     names_pool = ["dev", "ci", "ci.linux", "rel-1.2", "missing"]      # names with dots beside a name that is their prefix: each names its own file
     targets, files, defs_by_target, dir_by_target, argdir_by_target = [], [], {}, {}, {}
+    side11 = random.Random(rng.getrandbits(32) ^ 0x11)
     cmds = rng.sample(["build", "test"], rng.randint(1, 2))
     cfg_targets = []
     shared_cmd_dir = rng.random() < 0.4          # several targets point at ONE command directory and differ only in definitions
@@ -38,6 +39,9 @@ def case(ctx, rng, deps_directed=False):
         else: dir_by_target[p] = p + "/monorail/cmd"
         if targets and (rng.random() < 0.5 or deps_directed): t["uses"] = [rng.choice(targets)]          # dependencies: reached by --deps without being named
         cfg_targets.append(t); targets.append(p)
+    if deps_directed:
+        # a target that the named one does not depend on, whose base argmap is not even JSON: none of this run's business
+        cfg_targets.append({"path": "unrelated"}); argdir_by_target["unrelated"] = "unrelated/monorail/argmap"; dir_by_target["unrelated"] = "unrelated/monorail/cmd"
     cfg = {"targets": cfg_targets}
     rr = runscen.RunRepo(ctx, cfg, commands=[])
     try:
@@ -82,12 +86,26 @@ def case(ctx, rng, deps_directed=False):
         for t in cfg_targets:
             p = t["path"]; d = os.path.join(rr.repo, argdir_by_target[p]); os.makedirs(d, exist_ok=True)
             for nm in ["base"] + names_pool[:4]:
-                if rng.random() < 0.6 or (deps_directed and nm == "base"):
+                # one argmap in five has a definition: its file lives where argmaps.definitions.<name>.path says, and a decoy with other
+                # entries sits at the default place <argmaps.path>/<name>.json
+                defined = side11.random() < 0.2
+                if rng.random() < 0.6 or (deps_directed and nm == "base") or defined:
                     cm = {}
                     for c in (["build", "test"] if deps_directed and nm == "base" else rng.sample(["build", "test", "other"], rng.randint(0, 3))):
                         cm[c] = [rng.choice(ARGS) for _ in range(rng.randint(1 if deps_directed else 0, 3))]
-                    json.dump(cm, open(os.path.join(d, nm + ".json"), "w"))
+                    if defined:
+                        rel = "conf/argmaps/%s.%s.json" % (p.replace("/", "_"), nm)
+                        os.makedirs(os.path.join(rr.repo, "conf/argmaps"), exist_ok=True)
+                        json.dump(cm, open(os.path.join(rr.repo, rel), "w"))
+                        t.setdefault("argmaps", {}).setdefault("definitions", {})[nm] = {"path": rel}
+                        if side11.random() < 0.6: json.dump({"build": ["decoy-at-the-default-place"], "test": ["decoy"]}, open(os.path.join(d, nm + ".json"), "w"))
+                        ctx.count("argmap_by_definition")
+                    else:
+                        json.dump(cm, open(os.path.join(d, nm + ".json"), "w"))
                     files.append([p, nm, [[c, a] for c, a in cm.items()]])
+        if deps_directed:
+            os.makedirs(os.path.join(rr.repo, "unrelated/monorail/argmap"), exist_ok=True)
+            open(os.path.join(rr.repo, "unrelated/monorail/argmap/base.json"), "w").write("{ this is not JSON"); ctx.count("invalid_argmap_outside_the_closure")
         vlib.write_config(rr.repo, cfg)     # definitions were added after the repository was created
         json.dump({**json.load(open(os.path.join(rr.repo, "Monorail.json")))}, open(os.path.join(rr.repo, "Monorail.json"), "w"))
         use_base = rng.random() < 0.75 or deps_directed
